@@ -123,6 +123,10 @@ func Implies(a, b bool) bool      { return !a || b }
 func Iff(a, b bool) bool          { return a == b }
 func Symbolic() bool              { return false }
 
+// MapOrder selects the order in which the engine iterates Go maps: 0 insertion
+// order, 1 reverse insertion order (Go permits any; natively the order is Go's).
+func MapOrder(k int) {}
+
 // Tier is 0 for quick, 1 for thorough (VERIF_TIER).
 func Tier() int {
 	if os.Getenv("VERIF_TIER") == "thorough" {
